@@ -84,6 +84,7 @@ def run(ctx, R, tier):
     R.rule("C14-R3", "MemoryStorage and SqlStorage define the same storage protocol with the same parameter lists; NameServer uses only methods both have", floor=8)
     R.rule("C14-R4", "every deletion path of NameServer.remove excludes core.NAMESERVER_NAME", floor=3)
     R.rule("C14-R5", "an argument whose len() the SQL metadata search binds as a count is a set when it gets there", floor=1)
+    R.rule("C14-R8", "the generic (in-memory) filter matches literally and case-sensitively", floor=1)
     R.rule("C14-R7", "a missing key raises KeyError on both back-ends", floor=1)
     R.rule("C14-R6", "removal counts: len() of the very list handed to remove_items; 1 only after the guarded delete", floor=3)
 
@@ -210,6 +211,16 @@ def run(ctx, R, tier):
     for dunder in ("__getitem__", "__setitem__", "__delitem__", "__contains__", "__len__", "__iter__"):
         R.check(dunder in sq.methods, "C14-R3", "SqlStorage|%s" % dunder, "mapping operation implemented by the sqlite back-end", sq.module.relpath,
                 "%s missing" % dunder)
+
+    # ---------------------------------------------------------------- R8
+    lst = ctx.fn("Pyro5.nameserver.NameServer.list")
+    sw = [n for n in walk_no_nested(lst.node) if isinstance(n, ast.Call) and isinstance(n.func, ast.Attribute) and n.func.attr == "startswith" and
+          n.args and unparse(n.args[0]) == "prefix"]
+    folds = [n for n in walk_no_nested(lst.node) if isinstance(n, ast.Call) and isinstance(n.func, ast.Attribute) and n.func.attr in ("lower", "upper", "casefold", "strip")]
+    rxc = [n for n in walk_no_nested(lst.node) if isinstance(n, ast.Call) and dotted(n.func) == "re.compile"]
+    rx_ok = bool(rxc) and all(len(c.args) == 1 and not c.keywords and unparse(c.args[0]) == "regex" for c in rxc)
+    R.check(len(sw) == 1 and not folds and rx_ok, "C14-R8", "NameServer.list|literal-matching", "the generic filter matches prefixes with str.startswith on the raw name and compiles the regex without flags", lst.loc(),
+            "names are case-folded/stripped or the regex is compiled with flags: %s" % ([unparse(x) for x in folds + rxc][:3]))
 
     # ---------------------------------------------------------------- R7
     gi = sq.methods["__getitem__"]
